@@ -78,25 +78,34 @@ func canon(m *jsonrpc2.Message) string {
 
 // readAll reads n messages (or until error) from a codec with a logical stall guard.
 func readAll(c jsonrpc2.Codec, n int) ([]string, error) {
-	out := []string{}
+	// the messages are retained as returned and only rendered after the whole
+	// sequence was read: a message handed out must not change when later ones arrive
+	kept := []*jsonrpc2.Message{}
+	render := func() []string {
+		out := make([]string, 0, len(kept))
+		for _, m := range kept {
+			out = append(out, canon(m))
+		}
+		return out
+	}
 	type res struct {
 		m   *jsonrpc2.Message
 		err error
 	}
-	for len(out) < n {
+	for len(kept) < n {
 		ch := make(chan res, 1)
 		go func() { m, err := c.ReadMessage(); ch <- res{m, err} }()
 		select {
 		case r := <-ch:
 			if r.err != nil {
-				return out, r.err
+				return render(), r.err
 			}
-			out = append(out, canon(r.m))
+			kept = append(kept, r.m)
 		case <-time.After(20 * time.Second):
-			return out, fmt.Errorf("reader stalled after %d of %d messages", len(out), n)
+			return render(), fmt.Errorf("reader stalled after %d of %d messages", len(kept), n)
 		}
 	}
-	return out, nil
+	return render(), nil
 }
 
 func compareSeq(written, read []string) string {
